@@ -516,7 +516,7 @@ func init() {
 	register(&Property{ID: "C01", Rule: "episodes in which >=1 job was accepted and >=1 context switch happened inside library code; distinct = hash of (context-switch site sequence, program, configuration)",
 		Gen: func(r *simrt.Rand, tier string) (Cfg, *Program) {
 			pf := baseProfile()
-			pf.ReenterPct = 8 // worker functions that call back into the library
+			pf.ReenterPct, pf.ReenterTune = 8, true // worker functions that call back into the library (introspection, follow-up Add, TunePool)
 			pf.WrapDeqPct = 15 // user-supplied queues that refuse a dequeue now and then
 			pf.QKinds = allKinds
 			pf.Expiry = []int{0, 0, 0, 1, 50}
@@ -552,7 +552,7 @@ func init() {
 	register(&Property{ID: "C03", Rule: "episodes with >=2 accepted jobs, a running worker at the end and >=1 library context switch; distinct = schedule/program hash",
 		Gen: func(r *simrt.Rand, tier string) (Cfg, *Program) {
 			pf := baseProfile()
-			pf.ReenterPct = 8 // worker functions that call back into the library
+			pf.ReenterPct, pf.ReenterTune = 8, true // worker functions that call back into the library (introspection, follow-up Add, TunePool)
 			pf.BoundPct = 10 // bounded user queues: a producer waiting for room relies on the worker being woken for what is already in
 			if r.Chance(20) {
 				// several queues under every strategy: whichever queue holds the jobs, they are dispatched
@@ -593,7 +593,7 @@ func init() {
 	register(&Property{ID: "C05", Rule: "episodes in which a handle call (Wait/Result/Err/batch Wait) was invoked before the job was released; distinct = schedule/program hash",
 		Gen: func(r *simrt.Rand, tier string) (Cfg, *Program) {
 			pf := baseProfile()
-			pf.ReenterPct = 8 // worker functions that call back into the library
+			pf.ReenterPct, pf.ReenterTune = 8, true // worker functions that call back into the library (introspection, follow-up Add, TunePool)
 			pf.AckCapPct = 10
 			pf.WrapDeqPct = 15 // user-supplied queues that refuse a dequeue now and then
 			pf.BatchPct, pf.BatchMax = 25, 6
@@ -647,6 +647,7 @@ func init() {
 	register(&Property{ID: "C06", Rule: "episodes in which a barrier call (WaitUntilFinished/PauseAndWait/Stop/WaitAndStop) was invoked while jobs were pending or in flight; distinct = schedule/program hash",
 		Gen: func(r *simrt.Rand, tier string) (Cfg, *Program) {
 			pf := baseProfile()
+			pf.ReenterPct, pf.ReenterTune = 6, true // worker functions that call back into the library while a barrier waits for them
 			pf.WrapDeqPct = 15 // user-supplied queues that refuse a dequeue now and then
 			pf.Conc = []int{1, 1, 2, 3, 4}
 			pf.Adds = [2]int{1, 5}
